@@ -2,7 +2,11 @@
 import hashlib
 
 from .apps import WApp
-from .env import client_link, rc_of
+from .env import World, client_link, rc_of
+from .sched import Scheduler
+from .adversary import ReorderDup, HoldPermute
+
+STRATS = ["random", "pct", "netfirst", "timersfirst", "appfirst"]
 
 GATES = ("any", "code", "key", "verified")
 
@@ -170,3 +174,52 @@ def b2s(x):
 
 def events_view(app, limit=60):
     return [[s, k, b2s(v) if not isinstance(v, dict) else v] for (s, k, v) in app.ev[:limit]]
+
+
+def build_case(spec, max_msgs=12, max_size=2000, adversary=True):
+    seed = spec["seed"]
+    world = World(seed)
+    rng = world.work_rng
+    kind = spec["kind"]
+    cfg = {
+        "a_code": rng.choice(["alloc", "alloc", "set"]),
+        "b_code": rng.choice(["set", "set", "input"]),
+        "api_a": rng.choice(["deferred", "deferred", "delegate"]),
+        "api_b": rng.choice(["deferred", "deferred", "delegate"]),
+        "get_a": rng.choice(["eager", "eager", "lazy"]),
+        "get_b": rng.choice(["eager", "eager", "lazy"]),
+        "code": "%d-%s" % (rng.randint(1, 999), rng.choice(["alpha-beta", "purple-sausages", "x-y-z"])),
+    }
+    if kind == "perm":
+        n = len(spec["perm"]) - 1
+        cfg["plan_a"] = make_plan(rng, "A", n, gates=("any",))
+        cfg["plan_b"] = make_plan(rng, "B", 2)
+        cfg["api_b"] = "delegate"
+    else:
+        cfg["plan_a"] = make_plan(rng, "A", rng.randint(spec.get("min_msgs", 0), max_msgs), max_size=max_size)
+        cfg["plan_b"] = make_plan(rng, "B", rng.randint(spec.get("min_msgs", 0), max_msgs), max_size=max_size)
+    drv = TwoParty(world, cfg)
+    if kind == "perm":
+        world.adversary = HoldPermute(world, lambda: drv.b.w._boss._side, len(spec["perm"]), spec["perm"])
+        strat = "random"
+    else:
+        pd = rng.choice([0.0, 0.15, 0.3])
+        if adversary:
+            world.adversary = ReorderDup(world, p_dup=pd, reorder=(adversary != "dup-only"))
+        strat = rng.choice(STRATS)
+    sch = Scheduler(world, drv, strategy=strat, chunking=rng.choice(["whole", "mixed"]),
+                    p_advance=rng.choice([0.0, 0.0, 0.02]))
+    sch.advance_ok = drv.both_connected_once
+    if kind == "random":
+        nd = rng.choice(spec.get("ndrops", [0, 1, 1, 2, 3, 4]))
+        for _ in range(nd):
+            who = rng.choice("AB")
+            sch.faults.append((rng.randint(5, 220), (lambda who=who: drv.drop(who)), "drop " + who))
+        sch.faults.sort(key=lambda f: f[0])
+    elif kind == "sweep":
+        for (k, who) in [(spec["drop_at"], spec["who"])] + [tuple(x) for x in spec.get("more_drops", [])]:
+            sch.faults.append((k, (lambda who=who: drv.drop(who)), "drop " + who))
+        sch.faults.sort(key=lambda f: f[0])
+    return world, drv, sch, cfg
+
+
